@@ -82,39 +82,41 @@ func cmdRepCases(args []string) error {
 		// build the input stream: reads consume in order; a *0 op must come when the input is exhausted, so the
 		// data ops after the first *0 op get nothing either -- such sequences are skipped
 		exhausted, skip := false, false
+		// the last op that consumes data needs no separator after it (its word / line ends with the input); a raw
+		// read that follows a ReadWord is handed the separator the word left behind, in front of its own payload
+		lastData, prevData := -1, ""
+		for i, op := range c.Ops {
+			if op == "read" || op == "readword" || op == "readline" {
+				lastData = i
+			}
+		}
+		lead := map[int]string{}
 		for i, op := range c.Ops {
 			switch op {
 			case "read0", "readword0", "readline0":
 				exhausted = true
-			case "read":
+			case "read", "readword", "readline":
 				if exhausted {
 					skip = true
+				}
+				if op == "read" && prevData == "readword" {
+					lead[i] = " "
 				}
 				input.WriteString(payload[i])
-			case "readword":
-				if exhausted {
-					skip = true
+				if i != lastData {
+					switch op {
+					case "readword":
+						input.WriteString(" ")
+					case "readline":
+						input.WriteString("\n")
+					}
 				}
-				input.WriteString(payload[i] + " ")
-			case "readline":
-				if exhausted {
-					skip = true
-				}
-				input.WriteString(payload[i] + "\n")
+				prevData = op
 			}
 		}
-		// gio.Input's Read is the raw reader's, its ReadWord / ReadLine are buffered: a sequence mixing the two
-		// kinds loses input inside Input (not the Repeater's business) -- skipped
-		raw, buffered := false, false
-		for _, op := range c.Ops {
-			if op == "read" {
-				raw = true
-			}
-			if op == "readword" || op == "readline" {
-				buffered = true
-			}
-		}
-		if skip || (raw && buffered) {
+		// (sequences mixing the raw Read with ReadWord / ReadLine used to lose input inside gio.Input and were skipped;
+		// since fix 1c54d78 the three calls share one cursor: a raw read is given exactly the bytes that follow)
+		if skip {
 			executed--
 			continue
 		}
@@ -123,7 +125,7 @@ func cmdRepCases(args []string) error {
 		for i, op := range c.Ops {
 			switch op {
 			case "read", "read0":
-				n := len(payload[i])
+				n := len(payload[i]) + len(lead[i])
 				if n == 0 {
 					n = 8
 				}
@@ -160,7 +162,7 @@ func cmdRepCases(args []string) error {
 					name := strings.TrimPrefix(it, "P:")
 					for i := range ops {
 						if ops[i] == name {
-							b.WriteString(strings.TrimRight(payload[i], " \n"))
+							b.WriteString(lead[i] + strings.TrimRight(payload[i], " \n"))
 							ops[i] = "-"
 							break
 						}
